@@ -1,8 +1,10 @@
 """C42 — tree traversal and rewriting follow their recursion contract."""
+import re
 import os, sys
 sys.path.insert(0, os.path.join(os.path.dirname(os.path.dirname(os.path.abspath(__file__))), 'oracles'))
 import treenode
 from enumtab import *
+from traces import run_traces, ret_kind
 
 TECHNIQUE = 'static analysis: exhaustive evaluation of the recursion combinators over {Continue, Jump, Stop} x transformed flag from MIR; composition order of the default TreeNode methods; child-field coverage of apply_children vs map_children'
 EXPLANATION = ('(a) TreeNodeRecursion::visit_children/sibling/parent and Transformed::transform_children/sibling/parent are evaluated for '
@@ -13,7 +15,11 @@ EXPLANATION = ('(a) TreeNodeRecursion::visit_children/sibling/parent and Transfo
                'them in the documented order (apply: f, then visit_children(apply_children); transform_down: f before map_children; '
                'transform_up: map_children before f; rewrite/visit: f_down, children, f_up), checked on resolved callees. (d) Child '
                'coverage: for Expr, LogicalPlan and every ExecutionPlan/PhysicalExpr node type with both, the child fields read by the '
-               'visiting function equal those read by the rewriting function. User closures and node semantics are not decided.')
+               'visiting function equal those read by the rewriting function. (e) Children-result propagation: in each of the 25 combinators of the '
+               'traversal layer (map_children of Expr, LogicalPlan, Arc<T: DynTreeNode> and ConcreteTreeNode, every TreeNodeContainer::map_elements, '
+               'the transform_* / rewrite defaults) every path that obtained the Transformed result of mapping children returns a value computed '
+               'from that result, never a fresh Transformed::no/yes that forgets the children\'s Stop/Jump and changed-flag. User closures and node '
+               'semantics are not decided.')
 ASSUMPTIONS = ['oracles/treenode.py restates the documented contract of TreeNodeRecursion']
 
 TN = 'datafusion_common::tree_node::'
@@ -127,6 +133,67 @@ def call_order(facts, fn, names):
     return seq
 
 
+
+_TOK = re.compile(r'call:([A-Za-z_0-9]+)@(\d+)')
+SUBMAP = ('map_until_stop_and_collect', 'map_elements', 'map_children', 'transform_down', 'transform_up', 'rewrite', 'transform_down_up',
+          'map_expressions', 'map_subqueries', 'transform_children', 'transform_sibling', 'transform_parent')
+
+
+def children_result_propagated(ctx, f, tr_prefix, in_scope, rule='children-result-propagated'):
+    """In every combinator that returns a Transformed and, on a path, obtained the Transformed result R of mapping its children
+    (a call that returns Transformed<_>), the value it returns on that path is computed from R (R.map_data / update_data /
+    Transformed::new(.., R.transformed, R.tnr)) — never a fresh Transformed::no/yes/new(const) that forgets R's recursion value
+    and changed-flag."""
+    import C53
+    n = 0
+    for d in sorted(f.fn_index):
+        sg = f.sig(d)
+        if not sg or tr_prefix not in sg[0] or '{closure' in d or not in_scope(d):
+            continue
+        rec = f.fn(d)
+        if 'bb' not in rec:
+            continue
+
+        def keep(e):
+            return e[0] in ('callargs', 'variant')
+        try:
+            outs = run_traces(f, rec, C53.fn_args(rec), inline_depth=0, loop_visits=1, time_budget=30, try_tags=True, keep=keep, kill_dead=True)
+        except Undecidable as e:
+            ctx.undecided(rule, d, str(e))
+            continue
+        probs = set()
+        k = 0
+        for o in outs:
+            if ret_kind(o) == 'Err':
+                continue
+            subs = []
+            for e in o.events:
+                if e[0] != 'callargs':
+                    continue
+                cal = e[1]
+                s2 = f.sig(cal)
+                short = cal.rsplit('::', 1)[-1]
+                ctor = '::Transformed::<T>::' in cal or cal.rsplit('::', 2)[-2].startswith('Transformed')
+                if ((s2 and tr_prefix in s2[0]) or short in SUBMAP) and not ctor:
+                    subs.append((short, str(e[3])))
+            if not subs:
+                continue
+            k += 1
+            last = subs[-1]
+            rt = show(o.ret)
+            if last not in set(_TOK.findall(rt)):
+                probs.add('a path obtains the result of %s (line %s) and then returns %s, which is not computed from it: the recursion value '
+                          '(Stop/Jump) and the changed-flag of the children are forgotten' % (last[0], last[1], rt[:60]))
+        if k == 0:
+            continue
+        n += 1
+        ctx.analysed_fns.add(d)
+        if probs:
+            ctx.fail(rule, d, ctx.loc(rec), '; '.join(sorted(probs)), key='%s|%s' % (rule, d))
+        else:
+            ctx.ok(rule, d, sample={'fn': d, 'paths_with_children_result': k} if n <= 6 else None)
+    return n
+
 def run(ctx):
     f = ctx.facts
     for kind in ('children', 'sibling', 'parent'):
@@ -189,9 +256,18 @@ def run(ctx):
             else:
                 ctx.ok('child-coverage', inst, sample={'node': adt, 'variants_with_children': len(a), 'variants': len(names)})
     ctx.floor('child-coverage', 'node types compared', cov, 2)
+    # (e) combinators hand the children's recursion value and changed-flag on
+    comb = lambda d: ('tree_node::' in d or ' as datafusion_common::tree_node::TreeNode>' in d or 'TreeNodeContainer' in d) \
+        and 'TreeNodeRewriter>' not in d and 'TreeNodeVisitor>' not in d
+    nc = children_result_propagated(ctx, f, 'datafusion_common::tree_node::Transformed<', comb)
+    ctx.floor('children-result-propagated', 'combinators that map children and return a Transformed', nc, 25)
     import common
     st = ctx.st
     probe = common.Ctx(ctx.pid, ctx.tier, st, st, {})
     probe.known = []
     b = check_visit(probe, st, 'dfscan_selftest::tree::Tnr::bad_visit_children', 'children', rule='st', tnr_adt='dfscan_selftest::tree::Tnr')
     ctx.selftest('contract rule detects visit_children that descends on Jump', b > 0)
+    children_result_propagated(probe, st, 'dfscan_selftest::tree::tree_node::Transformed<', lambda d: 'dfscan_selftest::tree::tree_node::' in d, rule='st-prop')
+    keys = [v['key'] for v in probe.viol if v['key'].startswith('st-prop|')]
+    ctx.selftest('propagation rule detects map_children whose unchanged branch returns Transformed::no (bad_map_children), accepts good_map_children',
+                 any('bad_map_children' in k for k in keys) and not any('good_map_children' in k for k in keys))
